@@ -12,24 +12,50 @@ import (
 	"github.com/tikv/pd/client/pkg/caller"
 )
 
-// VClock is the virtual TSO clock of a universe.  The physical part only
-// moves when the driver (or a chaos goroutine) advances it; the logical part
-// strictly increases over all clients, so every timestamp issued in the
-// universe is unique and issue order = numeric order.
+// VClock is the virtual TSO clock of a universe.
+//
+// mocktikv: the physical part starts at a fixed instant and only moves when
+// the driver (or a chaos hook) advances it; the logical part strictly
+// increases over all clients, so every timestamp issued in the universe is
+// unique and issue order = numeric order.
+//
+// unistore: its prewrite asks its *own* TSO (package-level, wall-clock based)
+// for a fresh timestamp as the lower bound of min_commit_ts - that is its
+// guard against committing below a concurrent reader - and falls back from
+// async commit / 1PC when that exceeds the client's max_commit_ts.  The client
+// side therefore has to issue timestamps from the very same source
+// (ustikv.GetTS) plus a driver-controlled offset: while the offset is 0 the
+// guard works as in production; the driver only advances the clock when no
+// async-commit/1PC writer runs concurrently with readers (recovery phases).
 type VClock struct {
 	mu       sync.Mutex
-	physical int64 // ms
+	physical int64 // ms (mocktikv) / offset ms (external source)
 	logical  int64
 	last     uint64
+	source   func() (int64, int64)
 }
 
 // NewVClock starts the clock at a fixed instant (2024-01-01T00:00:00Z).
 func NewVClock() *VClock { return &VClock{physical: 1704067200000} }
 
+// NewVClockFrom issues timestamps from an external monotone source plus an offset.
+func NewVClockFrom(src func() (int64, int64)) *VClock { return &VClock{source: src} }
+
 // Next issues the next timestamp.
 func (c *VClock) Next() (int64, int64) {
 	c.mu.Lock()
 	defer c.mu.Unlock()
+	if c.source != nil {
+		p, l := c.source()
+		p += c.physical
+		ts := oracle.ComposeTS(p, l)
+		if ts <= c.last { // the offset moved while the source stood still within one ms
+			ts = c.last + 1
+			p, l = oracle.ExtractPhysical(ts), oracle.ExtractLogical(ts)
+		}
+		c.last = ts
+		return p, l
+	}
 	c.logical++
 	if c.logical >= 1<<18-1 {
 		c.physical++
@@ -43,7 +69,9 @@ func (c *VClock) Next() (int64, int64) {
 func (c *VClock) Advance(ms int64) {
 	c.mu.Lock()
 	c.physical += ms
-	c.logical = 0
+	if c.source == nil {
+		c.logical = 0
+	}
 	c.mu.Unlock()
 }
 
@@ -54,12 +82,8 @@ func (c *VClock) Last() uint64 {
 	return c.last
 }
 
-// PhysicalMS returns the current physical time in ms.
-func (c *VClock) PhysicalMS() int64 {
-	c.mu.Lock()
-	defer c.mu.Unlock()
-	return c.physical
-}
+// Virtual reports whether the clock is fully driver-controlled (no wall-clock source).
+func (c *VClock) Virtual() bool { return c.source == nil }
 
 // PD wraps the pd.Client of one client store: timestamps come from the
 // universe's virtual clock and are logged per client; region/store queries pass
